@@ -307,9 +307,21 @@ def run_case(case):
             elif kind == 'update':
                 if case['monitor'].startswith('dense'):
                     args = copy.deepcopy(call[1])
+                    if case.get('reuse_buffers'):
+                        # the caller keeps ONE list of [t, v] pairs per variable and refills it in place for every update()
+                        bufs = case.setdefault('_bufs', {})
+                        for a in args:
+                            buf = bufs.setdefault(a[0], [])
+                            for k, pr in enumerate(a[1]):
+                                if k < len(buf):
+                                    buf[k][0], buf[k][1] = pr[0], pr[1]
+                                else:
+                                    buf.append(list(pr))
+                            del buf[len(a[1]):]
+                            a[1] = buf
                     keep = copy.deepcopy(args)
                     r = spec.update(*args)
-                    res = {'status': 'ok', 'value': canon_val(r), 'args_unchanged': args == keep}
+                    res = {'status': 'ok', 'value': copy.deepcopy(canon_val(r)), 'args_unchanged': args == keep}
                 else:
                     t = call[1]
                     data = [[k, v] for k, v in call[2]]
